@@ -7,7 +7,7 @@
 From Coq Require Import ZArith List Bool.
 From Coq Require Import Permutation.
 From Cedar Require Import Base.Json Lang.Value Impl.Like Lang.Expr Impl.Eval Impl.IPAddr Impl.IPPrint Impl.ValueJson Impl.PolicyJson Lang.RoundTrip
-  Proofs.PolicyJsonProofs Proofs.NormMeaning Proofs.IPProofs Proofs.CodecCommute.
+  Proofs.PolicyJsonProofs Proofs.NormMeaning Proofs.IPProofs Proofs.CodecCommute Generated.Tables Proofs.NodeKeysTable.
 
 Section C09.
   Variable print_ip : bool -> Z -> Z -> str.
@@ -75,6 +75,18 @@ Theorem C09_all_encodings_same_outcome : forall set_order, (forall l, Permutatio
     bool_eval en (policy_to_expr (norm_policy set_order print_ip (normj_policy print_ip p))) = bool_eval en (policy_to_expr p).
 Proof. exact (fun so H => all_encodings_same_outcome so print_ip ip_ok ip_roundtrip_concrete H). Qed.
 
+(* TRANSLATED TABLE: the decoder's key table is the code's.  Generated/Tables.node_json_tonode_keys is the order in which the switch of
+   nodeJSON.ToNode examines the typed fields, node_json_field_keys the keys declared in the struct tags of nodeJSON; both are read off
+   internal/json by the translator on every run (Proofs/NodeKeysTable.v). *)
+Theorem C09_decoder_keys_are_the_codes : node_keys = node_json_tonode_keys.
+Proof. exact node_keys_are_tonode_order. Qed.
+
+Theorem C09_decoder_keys_are_the_declared_fields :
+  (forall k, In k node_keys <-> In k node_json_field_keys) /\ List.length node_keys = List.length node_json_field_keys.
+Proof. exact node_keys_are_the_declared_fields. Qed.
+
+Print Assumptions C09_decoder_keys_are_the_codes.
+Print Assumptions C09_decoder_keys_are_the_declared_fields.
 Print Assumptions C09_expr_roundtrip.
 Print Assumptions C09_policy_roundtrip.
 Print Assumptions C09_normal_form_idempotent.
